@@ -38,7 +38,10 @@ FloatLeaves == {"float", "f32"}
 TemporalLeaves == {"ts_us", "ts_tz", "date", "time", "dur"}
 ArrowObjLeaves == {"schema", "batch"}
 UnsupportedLeaves == {"tuple", "mset"}
-ScalarLeaves == IntLeaves \cup FloatLeaves \cup {"str", "bytes", "bool", "enum", "dec"} \cup TemporalLeaves
+\* enum = plain Enum; senum = enum.StrEnum; ienum = enum.IntEnum; menum = class E(str, Enum) -- the members of the last
+\* three are themselves str / int instances, so any "is it a plain scalar?" shortcut sees them as scalars
+EnumLeaves == {"enum", "senum", "ienum", "menum"}
+ScalarLeaves == IntLeaves \cup FloatLeaves \cup {"str", "bytes", "bool", "dec"} \cup EnumLeaves \cup TemporalLeaves
 AllLeaves == ScalarLeaves \cup ArrowObjLeaves \cup UnsupportedLeaves
 
 \* value classes of a leaf; OOR = classes the declared type cannot represent
@@ -51,6 +54,9 @@ InRange(l) ==
     [] l = "bytes"          -> {"empty", "nul_ff", "long"}
     [] l = "bool"           -> {"true", "false"}
     [] l = "enum"           -> {"value_ne_name", "value_is_other_name", "int_valued"}
+    [] l = "senum"          -> {"value_ne_name", "value_is_other_name"}
+    [] l = "menum"          -> {"value_ne_name", "value_is_other_name"}
+    [] l = "ienum"          -> {"int_valued"}
     [] l = "dec"            -> {"zero", "max_digits", "neg"}
     [] l = "ts_us"          -> {"epoch", "min", "max", "micro"}
     [] l = "ts_tz"          -> {"utc", "offset"}
@@ -106,7 +112,7 @@ InScope(t) ==
           \/ (/\ RpcTop(p) /\ Leaf(t) \notin ArrowObjLeaves
               \* "lists, maps and sets of scalars": Enum is listed next to, not among, the scalars -- an Enum inside
               \* an RPC-level container (element, value or key) is outside the statement (it works in dataclass fields)
-              /\ (HasContainer(t) => (Leaf(t) # "enum" /\ ~Has(t, "map_enum"))))
+              /\ (HasContainer(t) => (Leaf(t) \notin EnumLeaves /\ ~Has(t, "map_enum"))))
           \/ (Len(p) >= 1 /\ p[1] = "dc")
           \/ (Len(p) >= 2 /\ p[1] = "opt" /\ p[2] = "dc")
 TypesInScope == {t \in {p \o <<l>> : p \in PrefixesUpTo(MaxDepth), l \in Leaves} :
